@@ -9,11 +9,14 @@
    theorem).  Value-level facts: expires saturation, which header kinds accept several values, '*' is
    not a P-Asserted-Identity.  List level: capacity independence and first / last contact (C13), the
    counts under resumption (C01/C02).
-   PARTIAL: quoted display names, bare URIs with parameters, several parameters, expires / q / lr,
+   One parameter of any name after the bracketed URI (C09_uri_and_parameter, NameAddrParam.v): the
+   dispatch tag / expires / q / lr / other receives exactly the name text and the value text; the
+   parameter span and whole-value span close at the end of the value (q and expires numbers: C10).
+   PARTIAL: quoted display names, bare URIs with parameters, several parameters,
    white space and folds around ';' '=' ',', multi-value splitting at commas and the expires summary
    are not proved against the grammar: render/parse oracle on values, lists and messages (offsets
    != 0, chunked, reused objects) and correspondence. *)
-From Sipsp Require Import Harness IP4 Numbers Misc NameAddrSpec.
+From Sipsp Require Import Harness IP4 Numbers Misc NameAddrSpec NameAddrParam.
 Theorem C09_contact_expires_value : forall ds, all_digits ds -> expires_of ds = N.min (dec ds) MaxU32.
 Proof. exact contact_expires_saturates. Qed.
 Theorem C09_multi_value_header_kinds : forall h,
@@ -48,6 +51,18 @@ Theorem C09_uri_and_tag_at_any_offset : forall h (junk uri : list byte) v0 value
     fb_uri s' = mkpf (k + 1) lu /\ fb_tag s' = mkpf (k + (lu + 7)) lv /\ fb_params s' = mkpf (k + (lu + 3)) (4 + lv) /\
     fb_v s' = mkpf k (lu + 7 + lv).
 Proof. exact spec_uri_tag_at. Qed.
+Theorem C09_uri_and_parameter : forall h (uri : list byte) n0 (name : list byte) v0 (value : list byte) x tail,
+  Forall uchar uri -> pchar n0 -> Forall pchar name -> vchar v0 -> Forall vchar value -> is_sp x = false ->
+  let lu := nnat (length uri) in let ln := nnat (length (n0 :: name)) in let lv := nnat (length (v0 :: value)) in
+  let p0 := lu + 3 in let pe := p0 + ln in let q0 := pe + 1 in let e := q0 + lv in
+  parse_nameaddr h (60 :: uri ++ 62 :: 59 :: (n0 :: name) ++ 61 :: (v0 :: value) ++ CR :: LF :: x :: tail) 0 pfrom0
+  = Done (e + 2) EOk (pfin h p0 e (apply_param (n0 :: name) (v0 :: value) (pbase lu p0 pe q0 e))).
+Proof. exact spec_uri_param. Qed.
+(* what the result keeps of the dispatch: everything but the scratch offsets, the two spans, state, kind *)
+Theorem C09_parameter_result_fields : forall h p0 e s,
+  fb_q (pfin h p0 e s) = fb_q s /\ fb_perr (pfin h p0 e s) = fb_perr s /\ fb_expires (pfin h p0 e s) = fb_expires s /\
+  fb_hasexp (pfin h p0 e s) = fb_hasexp s /\ fb_lr (pfin h p0 e s) = fb_lr s /\ fb_tag (pfin h p0 e s) = fb_tag s /\ fb_uri (pfin h p0 e s) = fb_uri s.
+Proof. exact pfin_q. Qed.
 (* the hypotheses are satisfiable: "Bob <sip:b>" and "<sip:b>;tag=x1" (evaluated) *)
 Example C09_example :
   parse_nameaddr HdrFrom [66;111;98;32;60;115;105;112;58;98;62;13;10;13;10] 0 pfrom0
